@@ -239,14 +239,18 @@ structure UnionS where
   vars : List Var
   disc : Option (List Char) := none      -- discriminator.propertyName
   mapped : Bool := false                 -- discriminator has a non-empty mapping
+  /-- no mapping is written, but every member is a component whose tag property carries a `const` and that is in the
+  discriminator cache (some named discriminated union lists it): `effective_mapping` synthesises the mapping and
+  `try_upgrade_to_discriminated` emits a TAGGED enum all the same -/
+  implicit : Bool := false
   deriving DecidableEq, Repr
 
 def UnionS.refList (u : UnionS) : List (List Char) := u.vars.filterMap Var.refName
 /-- `extract_union_fingerprint` (a `BTreeSet`) -/
 def refsOf (u : UnionS) : List (List Char) := sortDedup u.refList
 def UnionS.nonNull (u : UnionS) : List Var := u.vars.filter (· != .null)
-def UnionS.tag (u : UnionS) : Option (List Char) := if u.mapped then u.disc else none
-/-- wire shape of the stand-alone enum: variants tried in order; tag-dispatched iff mapped -/
+def UnionS.tag (u : UnionS) : Option (List Char) := if u.mapped || u.implicit then u.disc else none
+/-- wire shape of the stand-alone enum: variants tried in order; tag-dispatched iff mapped (explicitly or implicitly) -/
 def renderU (u : UnionS) : List Var × Option (List Char) := (u.nonNull, u.tag)
 
 /-- sharing through `union_fingerprints` (named union, discriminator ignored) -/
